@@ -154,7 +154,7 @@ MessageArrives ==
     /\ step' = Obs("msg", <<>>)
 
 PongArrives ==
-    /\ PeerCanSend /\ st.pingPhase = "wait" /\ ~st.gotPong
+    /\ PeerCanSend /\ cfg.ping /\ ~st.gotPong        \* (unsolicited pongs are legal; only generated when keep-alive is on)
     /\ \A i \in 1..Len(inbox) : inbox[i].t # "pong"
     /\ PeerSends([t |-> "pong"])
     /\ UNCHANGED <<cfg, peerClosed, peerGone>>
